@@ -69,12 +69,15 @@ def ops_oracle_job(comm, cfile, nprocs, seed, which, out):
             vpar = VParallelAdvection(eta, f.getSpline(3), c)
             ref = VParallelAdvection(eta, f.getSpline(3), c)
             pg = ParallelGradient(f.getSpline(1), eta, rem.getLayout("v_parallel_1d"), c)
-            pg2 = ParallelGradient(f.getSpline(1), eta, rem.getLayout("v_parallel_1d"), c)
+            # the reference gradient comes from an operator built on an UNDISTRIBUTED layout (all radii on one process, the
+            # configuration C13 decides on its own) and is addressed by the GLOBAL radius index of the slice
+            from pygyro.model.layout import Layout
+            pg2 = ParallelGradient(f.getSpline(1), eta, Layout("serial", [1], [0, 2, 1], eta[:3], [0]), c)
             pgv = np.full([L.shape[0], c.npts[2], c.npts[1]], np.nan)
             grads = []
             for i in range(L.shape[0]):
                 g = np.empty([c.npts[2], c.npts[1]])
-                pg2.parallel_gradient(np.real(np.array(phi.get2DSlice(i))), i, g)
+                pg2.parallel_gradient(np.real(np.array(phi.get2DSlice(i))), int(L.starts[0]) + i, g)
                 grads.append(g)
             want = np.array(f.getAllData()).copy()
             for n, call in enumerate((lambda: vpar.gridStep(f, phi, pg, pgv, 0.5 * dt), lambda: vpar.gridStepKeepGradient(f, pgv, 0.5 * dt))):
